@@ -490,9 +490,10 @@ func PC02(args []string) string {
 	if FFS3Rule(img[lo:hi]) == "" {
 		if why := FFS3Rule(r.Out[lo:hi]); why != "" {
 			for _, o := range ops {
-				// candidate defect (fixes/C02-repack-keeps-ffsv3.diff): repack always gives the new
+				// fixed in /repo 00d5e98 (fixes/C02-repack-keeps-ffsv3.diff), tag kept so that a regression
+				// is recognised: repack always gave the new
 				// nested volume the FFSv2 GUID; the files of an FFSv3 volume move into it as they are,
-				// so files in the large form end up in a volume that says FFSv2
+				// so files in the large form ended up in a volume that says FFSv2
 				if o.Kind == "rp" && strings.Contains(why, "compressed nested file@") {
 					return "FAIL repack-of-an-ffsv3-volume-into-an-ffsv2-volume invalid-output " + why
 				}
